@@ -85,8 +85,9 @@ def gen_gfind(rng, tier, dirs, budget):
                             a, b = sorted(rng.sample(range(length), 2)) if length >= 2 else (0, 0)
                             pairs.append((a, b))
                         placements += pairs
-                        if tier == "thorough":
-                            placements.append(tuple(range(length)))  # all match
+                        placements.append(tuple(range(length)))  # all match
+                        if length >= 2 * lanes:
+                            placements.append(tuple(range(lanes, length)))  # everything after the head chunk
                         for pl in placements:
                             hay = [fill] * length
                             for j, p in enumerate(pl):
@@ -574,18 +575,18 @@ def g_c05(rng, tier, budget):
                         yield ("swar %s %s %d 0 %d %s" % (hx(needles), d, base, length, hx(hay)), dict(family="swar"))
                         for be in ("sse2", "avx2"):
                             yield ("memchr %s %s %s %d 0 %d %s" % (be, hx(needles), d, base, length, hx(hay)),
-                                   dict(family="memchr-" + be))
+                                   dict(family="memchr-" + be, untraced_widths=[16, 32]))
                     if k == 1:
                         yield ("swarcount %s %d 0 %d %s" % (hx(needles), base, length, hx(hay)), dict(family="swarcount"))
                         for be in ("sse2", "avx2"):
                             yield ("count %s %s %d 0 %d %s" % (be, hx(needles), base, length, hx(hay)),
-                                   dict(family="count-" + be))
+                                   dict(family="count-" + be, untraced_widths=[16, 32]))
     # raw forms with start >= end
     for (s, e) in ((5, 5), (6, 5), (10, 0)):
         for d in ("fwd", "rev"):
             yield ("swar 61 %s 0 %d %d %s" % (d, s, e, hx([0x61] * 10)), dict(family="swar-empty"))
             for be in ("sse2", "avx2"):
-                yield ("memchr %s 61 %s 0 %d %d %s" % (be, d, s, e, hx([0x61] * 10)), dict(family="memchr-empty"))
+                yield ("memchr %s 61 %s 0 %d %d %s" % (be, d, s, e, hx([0x61] * 10)), dict(family="memchr-empty", untraced_widths=[16, 32]))
     # (iii) is_equal & friends abutting guard pages
     for op, meta in gen_iseq(rng, "quick", None):
         yield op, meta
@@ -676,6 +677,31 @@ def byte_cases(rng, tier, maxlen):
                         for j, p in enumerate(pl):
                             hay[p] = needles[(j + p) % k]
                         yield needles, base, hay
+    # dense matches: runs of needle bytes around the vector / unrolled-loop sizes, all-match
+    # haystacks, needles alternating, rows whose matches cover every lane of a vector only
+    # when OR-ed together (every lane of the unrolled loop's combined vector set)
+    for k in (1, 2, 3):
+        needles = NEEDLE_SETS[k][0]
+        fill = filler_for(needles)
+        runs = [1, 15, 16, 17, 31, 32, 33, 64, 65, 128, 130] if tier == "quick" else [1, 2, 15, 16, 17, 31, 32, 33, 63, 64, 65, 96, 127, 128, 129, 160, 300]
+        for prefix in ([0, 1, 31, 32, 33, 40, 64, 100] if tier == "quick" else [0, 1, 15, 16, 17, 31, 32, 33, 40, 63, 64, 65, 96, 127, 130]):
+            for run in runs:
+                for tail in (0, 1, 33, 72, 129):
+                    hay = [fill] * prefix + [needles[j % k] for j in range(run)] + [fill] * tail
+                    for base in ([rng.randrange(64)] if tier == "quick" else [0, 1, 31, 33, rng.randrange(64)]):
+                        yield needles, base, hay
+        for length in (64, 128, 160, 257):
+            yield needles, rng.randrange(64), [needles[j % k] for j in range(length)]
+            for lanes in (16, 32):
+                for prefix in (0, 7, lanes, 3 * lanes + 5):
+                    hay = [fill] * prefix
+                    for row in range(length // lanes):
+                        r = [fill] * lanes
+                        q = lanes // 4
+                        for j in range(q):
+                            r[(row % 4) * q + j] = needles[j % k]
+                        hay += r
+                    yield needles, rng.randrange(64), hay + [fill] * 50
     # multi-KiB haystacks
     for size in ((3000, 5000) if tier == "quick" else (3000, 5000, 9000, 20000)):
         for needles in ([0x61], [0x61, 0x62, 0x63]):
@@ -798,3 +824,322 @@ def g_c06(rng, tier, budget):
 
 
 GENERATORS.update({"C01": g_c01, "C02": g_c02, "C07": g_c07, "C06": g_c06})
+
+
+# ---------------------------------------------------------------------------------------
+# substring search at API level (C03 C04 C08 C10 C16 C17)
+
+# (executor variant, cfg token of the ops)
+MM_CFGS_QUICK = [("host", "avx2"), ("noavx2", "sse2"), ("nosse2", "fallback"), ("neon", "neon"), ("simd128", "simd128")]
+MM_UNTRACED = {"avx2": [16, 32], "sse2": [16, 32], "fallback": None, "neon": None, "simd128": None}
+
+
+def mm_pairs(rng, tier, budget_pairs):
+    """(needle, hay) pairs: exhaustive small binary words + structured families"""
+    n = 0
+    nl, hl = (4, 7) if tier == "quick" else (6, 10)
+    for needle in words([0x61, 0x62], nl):
+        for hay in words([0x61, 0x62], hl, minlen=hl - 1):
+            yield needle, hay
+            n += 1
+    for needle in structured_needles(rng, tier):
+        L = len(needle)
+        sizes = [0, 1, L - 1, L, L + 1, 15, 16, 17, 2 * L + 3, 47, 63, 64, 65, 130, 200] + ([300, 1000] if tier == "thorough" else [])
+        for hay in haystacks_for(rng, needle, tier, sizes=sizes):
+            yield needle, hay
+            n += 1
+            if budget_pairs and n >= budget_pairs:
+                return
+    # long needles in haystacks whose tail is shorter than the vector prefilter's minimum
+    for L in (33, 40, 64, 100):
+        needle = [0x61 + (i * 7) % 26 for i in range(L)]
+        for tail in range(0, 40, 3):
+            for lead in (0, 5, 31, 64):
+                hay = [0x2E] * lead + needle + [needle[(i + 1) % L] for i in range(tail)]
+                yield needle, hay
+                hay2 = [needle[0]] * lead + needle[:-1] + [0x2E] + needle + [0x2E] * tail
+                yield needle, hay2
+    # haystacks that drive the prefilter inert before a later match: dense false candidates
+    for L in (34, 40):
+        needle = [0x78, 0x79] + [0x61] * (L - 2)
+        for reps in (60, 120, 400):
+            hay = [0x78, 0x79, 0x62] * reps + needle + [0x2E] * 7
+            yield needle, hay
+            yield needle, [0x78, 0x79, 0x62] * reps
+
+
+def prestates(rng):
+    M = 2 ** 32 - 1
+    return [(1, 0), (0, 0), (51, 0), (51, 400), (52, 407), (60, 100000), (M, M), (2 ** 29 + 1, M), (2, 0)]
+
+
+def gen_find(rng, tier, budget, cfgs=None, pfs=("auto", "none"), rankers=None, states=None):
+    cfgs = cfgs or MM_CFGS_QUICK
+    tabs = rank_tables(rng)
+    rankers = rankers or ["default"]
+    n = 0
+    for needle, hay in mm_pairs(rng, tier, None if tier == "thorough" else 4000):
+        hb = end_at_guard(len(hay)) if n % 2 else rng.randrange(64)
+        for (variant, cfg) in cfgs:
+            for pf in pfs:
+                for rk in rankers:
+                    t = "default" if rk == "default" else hx(tabs[rk])
+                    for (s1, s2) in (states or [(1, 0)]):
+                        yield ("find %s %s %s %d %d %s %d %s" % (cfg, pf, t, s1, s2, hx(needle), hb, hx(hay)),
+                               dict(cfg=variant, family="find-%s-%s" % (cfg, pf), untraced_widths=MM_UNTRACED[cfg]))
+        n += 1
+        if budget and n >= budget:
+            return
+
+
+def g_c03(rng, tier, budget):
+    yield from gen_find(rng, tier, budget)
+    for needle, hay in mm_pairs(rng, "quick", 1500):
+        for (variant, cfg) in MM_CFGS_QUICK:
+            yield ("oneshot %s fwd %s %d %s" % (cfg, hx(needle), rng.randrange(64), hx(hay)),
+                   dict(cfg=variant, family="oneshot-fwd", untraced_widths=MM_UNTRACED[cfg]))
+    for needle in structured_needles(rng, "quick"):
+        for (variant, cfg) in MM_CFGS_QUICK:
+            for pf in ("auto", "none"):
+                yield ("fnew %s %s default %s" % (cfg, pf, hx(needle)), dict(cfg=variant, family="fnew"))
+
+
+def g_c04(rng, tier, budget):
+    n = 0
+    for needle, hay in mm_pairs(rng, tier, None if tier == "thorough" else 4000):
+        for (variant, cfg) in MM_CFGS_QUICK:
+            yield ("rfind %s %s %d %s" % (cfg, hx(needle), end_at_guard(len(hay)) if n % 2 else 3, hx(hay)),
+                   dict(cfg=variant, family="rfind-" + cfg, untraced_widths=MM_UNTRACED[cfg]))
+            if n % 3 == 0:
+                yield ("oneshot %s rev %s %d %s" % (cfg, hx(needle), 5, hx(hay)),
+                       dict(cfg=variant, family="oneshot-rev", untraced_widths=MM_UNTRACED[cfg]))
+        n += 1
+        if budget and n >= budget:
+            return
+
+
+def iter_cases(rng, tier):
+    # self-overlapping needles in repetitive haystacks, empty needle, prefilter-inert haystacks
+    for n in (1, 2, 3, 7, 16, 33, 64, 100):
+        yield [0x61, 0x61], [0x61] * n
+        yield [0x61, 0x62, 0x61], ([0x61, 0x62] * n)[: 2 * n - 1]
+        yield [], [0x61] * (n % 9)
+        yield [0x61], [0x61, 0x2E] * n
+        yield [0x61] * 34, [0x61] * (n + 34)
+        yield ([0x61, 0x62] * 20), ([0x61, 0x62] * (20 + n))
+    yield [], []
+    yield [0x61], []
+    needle = [0x78, 0x79] + [0x61] * 38
+    yield needle, [0x78, 0x79, 0x62] * 100 + needle + [0x78, 0x79, 0x62] * 30 + needle
+    for needle, hay in mm_pairs(rng, "quick", 300):
+        yield needle, hay
+
+
+def g_c08(rng, tier, budget):
+    for needle, hay in iter_cases(rng, tier):
+        expected = 0 if not hay and needle else len(hay) + 2
+        ops_full = "sn" * min(expected, 260) + "snn"
+        for (variant, cfg) in MM_CFGS_QUICK:
+            for pf in ("auto", "none"):
+                yield ("finditer %s %s default %s %d %s %s" % (cfg, pf, hx(needle), rng.randrange(64), hx(hay), ops_full),
+                       dict(cfg=variant, family="finditer"))
+            yield ("rfinditer %s %s %d %s %s" % (cfg, hx(needle), rng.randrange(64), hx(hay), "n" * min(expected, 260) + "nn"),
+                   dict(cfg=variant, family="rfinditer"))
+            # clones / into_owned at random points
+            ops = "".join(rng.choice("nnsko") for _ in range(min(2 * expected, 80)))
+            yield ("finditer %s auto default %s %d %s %s" % (cfg, hx(needle), 7, hx(hay), ops or "-"),
+                   dict(cfg=variant, family="finditer-clone"))
+            ops = "".join(rng.choice("nnko") for _ in range(min(2 * expected, 80)))
+            yield ("rfinditer %s %s %d %s %s" % (cfg, hx(needle), 7, hx(hay), ops or "-"),
+                   dict(cfg=variant, family="rfinditer-clone"))
+
+
+def g_c10(rng, tier, budget):
+    rk = ["default", "const0", "const255", "identity", "reversed", "random", "coarse"]
+    yield from gen_find(rng, tier, 700 if tier == "quick" else 4000, cfgs=MM_CFGS_QUICK[:3] if tier == "quick" else MM_CFGS_QUICK,
+                        rankers=rk, states=None)
+    # every PrefilterState value class on the prefilter-driven families
+    yield from gen_find(rng, tier, 500 if tier == "quick" else 3000, cfgs=MM_CFGS_QUICK[:1] + MM_CFGS_QUICK[2:3],
+                        pfs=("auto",), states=prestates(rng))
+    yield from gen_prestate(rng, tier, budget)
+
+
+def g_c16(rng, tier, budget):
+    rngl = rng
+    for _ in range(400 if tier == "quick" else 4000):
+        needle = rngl.choice(structured_needles(rngl, "quick"))
+        L = len(needle)
+        ops = []
+        for _ in range(rngl.randrange(1, 9)):
+            c = rngl.random()
+            if c < 0.55:
+                hay = rngl.choice(haystacks_for(rngl, needle, "quick", sizes=[0, L, 2 * L + 3, 64, 130]))
+                ops.append("f:" + hx(hay))
+            else:
+                ops.append(rngl.choice(["r", "o", "k", "n"]))
+        # haystack orders that would exhaust the prefilter first
+        if L >= 34 and rngl.random() < 0.5:
+            ops.insert(0, "f:" + hx(([needle[0], needle[1], 0x62] * 300)))
+        for (variant, cfg) in MM_CFGS_QUICK[:3] if tier == "quick" else MM_CFGS_QUICK:
+            yield ("finderops %s auto %s %s" % (cfg, hx(needle), ",".join(ops)), dict(cfg=variant, family="finderops"))
+
+
+def g_c17(rng, tier, budget):
+    # every memchr-family function / iterator, substring finders: expected allocations are
+    # exactly the model's count (finderops) or zero (everything else)
+    yield from g_c16(rng, tier, budget)
+    for needle, hay in mm_pairs(rng, "quick", 1200):
+        for (variant, cfg) in MM_CFGS_QUICK[:3]:
+            yield ("finderops %s auto %s f:%s" % (cfg, hx(needle), hx(hay)), dict(cfg=variant, family="finderops-find"))
+            yield ("finderops %s none %s f:%s,f:%s" % (cfg, hx(needle), hx(hay), hx(hay[::-1])), dict(cfg=variant, family="finderops-find"))
+
+
+def g_c17_all(rng, tier, budget):
+    yield from g_c17(rng, tier, budget)
+    # every memchr-family function / iterator and every substring search entry point with the
+    # allocation probe armed and the hook's recorder off: expected allocations = 0
+    import itertools as _it
+    srcs = [("C01", 6000), ("C02", 3000), ("C06", 3000), ("C07", 2000), ("C03", 6000), ("C04", 3000), ("C08", 1500), ("C12", 3000)]
+    for p, cap in srcs:
+        n = 0
+        for op, meta in GENERATORS[p](rng, "quick", None):
+            if meta.get("cfg", "host") != "host":
+                continue
+            head = op.split(" ", 1)[0]
+            if head in ("gfind", "gcount", "fnew", "shiftor", "ppfind", "pppre", "twnew"):
+                continue
+            m = dict(meta)
+            m.update(cfg="notrace", allocs=0, family="noalloc-" + head)
+            m.pop("untraced_widths", None)
+            yield op, m
+            n += 1
+            if n >= (cap if tier == "quick" else cap * 10):
+                break
+
+
+GENERATORS.update({"C03": g_c03, "C04": g_c04, "C08": g_c08, "C10": g_c10, "C16": g_c16, "C17": g_c17_all})
+
+
+# ---------------------------------------------------------------------------------------
+# C13 linear work: adversarial families at geometrically growing sizes
+
+C13_K, C13_K0 = 16, 2000      # threshold used by the executable test; the proved constants are in Props/C13.lean
+
+
+def rep(hexunit, count):
+    return "r%dx%s" % (count, hexunit) if count > 0 else ""
+
+
+def join_parts(parts):
+    parts = [p for p in parts if p]
+    return "+".join(parts) if parts else "-"
+
+
+def c13_families(rng, sizes):
+    """yield (name, needle_hexexpr, needle_len, hay_hexexpr, hay_len)"""
+    for n in sizes:
+        for m in (8, 32, 33, 64, 255, n // 16 if n >= 4096 else 40):
+            m = max(2, min(m, n // 2))
+            # 1. a^m in (a^(m-1) b)^r
+            unit = "61" * (m - 1) + "62"
+            r = n // m
+            yield ("a^m-in-(a^(m-1)b)^r", rep("61", m), m, rep(unit, r), r * m)
+            # 2. periodic needle (ab)^k in its near-period haystack
+            k = m // 2
+            near = "6162" * (k - 1) + "6163"
+            yield ("periodic-in-near-periods", rep("6162", k), 2 * k, rep(near, n // (2 * k)), (n // (2 * k)) * 2 * k)
+            # 3. two rare bytes of the needle at every haystack position: needle = x y a^(m-2)
+            yield ("rare-pair-everywhere", join_parts(["7879", rep("61", m - 2)]), m, rep("7879", n // 2), (n // 2) * 2)
+            # 5. candidate-free prefix then dense false candidates (keeps the prefilter on)
+            yield ("free-prefix-then-dense", join_parts(["7879", rep("61", m - 2)]), m,
+                   join_parts([rep("62", n // 2), rep("787962", n // 6)]), n // 2 + (n // 6) * 3)
+        # 4. Fibonacci / Thue-Morse
+        f = fib_word(n)
+        t = thue_morse(n)
+        for m in (33, 64, 255):
+            if m < n // 2:
+                yield ("fibonacci", hx(f[n - m:]), m, hx(f), n)
+                yield ("fibonacci-prefix-broken", hx(f[:m - 1] + [0x63]), m, hx(f), n)
+                yield ("thue-morse", hx(t[n // 3:n // 3 + m]), m, hx(t), n)
+
+
+def expand(expr):
+    if expr == "-":
+        return b""
+    out = bytearray()
+    for part in expr.split("+"):
+        if part.startswith("r"):
+            n, hexs = part[1:].split("x")
+            out += bytes.fromhex(hexs) * int(n)
+        else:
+            out += bytes.fromhex(part)
+    return bytes(out)
+
+
+def greedy_count(hay, needle, rev=False):
+    if rev:
+        hay, needle = hay[::-1], needle[::-1]
+    if not needle:
+        return len(hay) + 1
+    k, pos = 0, 0
+    while True:
+        i = hay.find(needle, pos)
+        if i < 0:
+            return k
+        k += 1
+        pos = i + len(needle)
+
+
+def g_c13(rng, tier, budget):
+    sizes = [2 ** k for k in (range(8, 17) if tier == "quick" else range(8, 21))]
+    cfgs = MM_CFGS_QUICK[:3] if tier == "quick" else MM_CFGS_QUICK
+    for name, nx, m, hxpr, n in c13_families(rng, sizes):
+        bound = C13_K * (n + m) + C13_K0
+        for (variant, cfg) in cfgs:
+            meta = dict(cfg=variant, family="c13-" + name, bound=bound, size=n + m)
+            yield ("find %s auto default 1 0 %s 0 %s" % (cfg, nx, hxpr), dict(meta))
+            yield ("fnew %s auto default %s" % (cfg, nx), dict(meta, bound=C13_K * m + C13_K0))
+            if cfg == "avx2":
+                yield ("find %s none default 1 0 %s 0 %s" % (cfg, nx, hxpr), dict(meta))
+                yield ("rfind %s %s 0 %s" % (cfg, nx, hxpr), dict(meta))
+                if n <= 2 ** 14:
+                    # a COMPLETE traversal: all matches plus the first None
+                    hb, nb = expand(hxpr), expand(nx)
+                    cnt = greedy_count(hb, nb) + 1
+                    yield ("finditer %s auto default %s 0 %s %s" % (cfg, nx, hxpr, "n" * cnt), dict(meta, bound=bound + C13_K0 * cnt))
+                    cnt = greedy_count(hb, nb, rev=True) + 1
+                    yield ("rfinditer %s %s 0 %s %s" % (cfg, nx, hxpr, "n" * cnt), dict(meta, bound=bound + C13_K0 * cnt))
+    # building blocks with counters
+    for needle, hay in mm_pairs(rng, "quick", 1500):
+        yield ("twfind fwd %s %s" % (hx(needle), hx(hay)), dict(family="c13-twfind", bound=C13_K * (len(hay) + len(needle)) + C13_K0))
+        yield ("twfind rev %s %s" % (hx(needle), hx(hay)), dict(family="c13-twfind", bound=C13_K * (len(hay) + len(needle)) + C13_K0))
+
+
+GENERATORS.update({"C13": g_c13})
+
+
+def g_c09(rng, tier, budget):
+    b = 12000 if tier == "quick" else None
+    yield from gen_byte_api(rng, tier, ["fwd", "rev"], b, with_count=True)
+    cfgs = MM_CFGS_QUICK if tier == "quick" else MM_CFGS_QUICK + [("alloconly", "sse2"), ("avx2ct", "avx2")]
+    yield from gen_find(rng, tier, 1500 if tier == "quick" else 8000, cfgs=cfgs)
+    n = 0
+    for needle, hay in mm_pairs(rng, tier, 1500 if tier == "quick" else 8000):
+        for (variant, cfg) in cfgs:
+            yield ("rfind %s %s %d %s" % (cfg, hx(needle), 3, hx(hay)),
+                   dict(cfg=variant, family="rfind-" + cfg, untraced_widths=MM_UNTRACED.get(cfg)))
+    for arch, a, b2, c, d, e in itertools.product(["x86_64", "aarch64", "wasm32simd128", "other"], [0, 1], [0, 1], [0, 1], [0, 1], [0, 1]):
+        yield ("select %s %d %d %d %d %d" % (arch, a, b2, c, d, e), dict(family="select", modelonly=True))
+
+
+def g_c15(rng, tier, budget):
+    threads = [2, 3, 4, 8, 16, 32, 64]
+    reps = 6 if tier == "quick" else 60
+    for (variant, be) in (("host", "avx2"), ("noavx2", "sse2"), ("nosse2", "swar")):
+        for t in threads:
+            for r in range(reps):
+                yield ("conc %s %d %d %d" % (be, t, rng.randrange(1 << 30), 40 if t > 16 else 120),
+                       dict(cfg=variant, family="conc-%s" % variant))
+
+
+GENERATORS.update({"C09": g_c09, "C15": g_c15})
